@@ -312,14 +312,13 @@ func (a String) M__iadd__(other Object) (Object, error) {
 
 func (a String) M__mul__(other Object) (Object, error) {
 	if b, ok := convertToInt(other); ok {
-		if b < 0 {
+		if b < 0 || len(a) == 0 {
 			b = 0
 		}
-		var out bytes.Buffer
-		for i := 0; i < int(b); i++ {
-			out.WriteString(string(a))
+		if b != 0 && b > Int(GoIntMax/len(a)) {
+			return nil, ExceptionNewf(MemoryError, "repeated string is too long")
 		}
-		return String(out.String()), nil
+		return String(strings.Repeat(string(a), int(b))), nil
 	}
 	return NotImplemented, nil
 }
